@@ -4,9 +4,9 @@ import os
 import sys
 
 sys.path.insert(0, os.path.join(os.path.dirname(os.path.dirname(os.path.abspath(__file__))), "py"))
-from gen import gen_spacing, gen_metric, gen_polspacing, gen_fields, gen_critical, gen_pipeline, gen_geom1, gen_contour, gen_spacings, gen_follow, gen_tokamak, gen_xind  # noqa: E402
+from gen import gen_spacing, gen_metric, gen_polspacing, gen_fields, gen_critical, gen_pipeline, gen_geom1, gen_contour, gen_spacings, gen_follow, gen_tokamak, gen_xind, gen_parmap  # noqa: E402
 
-for g in (gen_spacing, gen_metric, gen_polspacing, gen_fields, gen_critical, gen_pipeline, gen_geom1, gen_contour, gen_spacings, gen_follow, gen_tokamak, gen_xind):
+for g in (gen_spacing, gen_metric, gen_polspacing, gen_fields, gen_critical, gen_pipeline, gen_geom1, gen_contour, gen_spacings, gen_follow, gen_tokamak, gen_xind, gen_parmap):
     try:
         print(g.__name__, "changed" if g.main() else "unchanged")
     except Exception as e:
